@@ -915,18 +915,58 @@ Proof.
   destruct (proj2 E o f Ef) as (f' & G & _ & _ & I). rewrite G, (I i Ei). cbn [bind]. rewrite (IH is Er). reflexivity.
 Qed.
 
+(* the views of a CAS, each with the byte arrays the loop has written before it reaches the view (written_sofa_arrays) *)
+Definition arr_of (p : list oid * cview) : list oid :=
+  match s_arr (v_sofa (snd p)) with Some o => if omem o (fst p) then [] else [o] | None => [] end.
+Fixpoint tag_views (wr : list oid) (vs : list cview) : list (list oid * cview) :=
+  match vs with [] => [] | v :: r => (wr, v) :: tag_views (wr ++ arr_of (wr, v)) r end.
+Lemma tag_views_snd vs : forall wr, map snd (tag_views wr vs) = vs.
+Proof. induction vs as [|v r IH]; intros wr; cbn [tag_views map snd]; [reflexivity|]. rewrite IH. reflexivity. Qed.
+Lemma omem_In o l : omem o l = true <-> In o l.
+Proof.
+  unfold omem. rewrite existsb_exists. split.
+  - intros (x & Hin & E). apply N.eqb_eq in E. subst. exact Hin.
+  - intros H. exists o. split; [exact H|apply N.eqb_refl].
+Qed.
+Lemma omem_app o a b : omem o (a ++ b) = omem o a || omem o b.
+Proof. unfold omem. apply existsb_app. Qed.
+(* what the loop writes of the arrays: every one once, in the order of first use *)
+Lemma tag_arrays vs : forall wr,
+  flat_map arr_of (tag_views wr vs) = odedup wr (flat_map (fun v => match s_arr (v_sofa v) with Some o => [o] | None => [] end) vs).
+Proof.
+  induction vs as [|v r IH]; intros wr; cbn [tag_views flat_map]; [reflexivity|].
+  rewrite IH. unfold arr_of. cbn [fst snd]. destruct (s_arr (v_sofa v)) as [o|]; cbn [app odedup]; [|rewrite app_nil_r; reflexivity].
+  destruct (omem o wr); cbn [app]; [rewrite app_nil_r|]; reflexivity.
+Qed.
+Lemma omem_odedup o l : forall wr, omem o (wr ++ odedup wr l) = omem o wr || omem o l.
+Proof.
+  induction l as [|x r IH]; intros wr; cbn [odedup].
+  - rewrite app_nil_r. unfold omem. cbn [existsb]. rewrite orb_false_r. reflexivity.
+  - assert (Hx : omem o (x :: r) = N.eqb o x || omem o r) by reflexivity. rewrite Hx.
+    destruct (omem x wr) eqn:Ex.
+    + rewrite IH. destruct (N.eqb o x) eqn:E; [|reflexivity]. apply N.eqb_eq in E. subst x. rewrite Ex. reflexivity.
+    + assert (Hc : wr ++ x :: odedup (wr ++ [x]) r = (wr ++ [x]) ++ odedup (wr ++ [x]) r) by (rewrite <- app_assoc; reflexivity).
+      rewrite Hc, IH, omem_app. assert (H1 : omem o [x] = N.eqb o x) by (unfold omem; cbn [existsb]; apply orb_false_r).
+      rewrite H1, orb_assoc. reflexivity.
+Qed.
+Lemma sofa_arrays_once_mem c o : omem o (sofa_arrays_once c) = omem o (sofa_arrays c).
+Proof. unfold sofa_arrays_once. exact (omem_odedup o (sofa_arrays c) []). Qed.
+Lemma unwritten_same wr wr' l : (forall o, omem o wr = omem o wr') -> unwritten wr l = unwritten wr' l.
+Proof. intros H. unfold unwritten. apply filter_ext. intros io. rewrite H. reflexivity. Qed.
+
 (* what the loop is expected to have written for one view, read off a CAS *)
-Definition arr_out (L : lex) (s : schema) (c : cas) (v : cview) : res (list json) :=
-  match s_arr (v_sofa v) with
+Definition arr_out (L : lex) (s : schema) (c : cas) (p : list oid * cview) : res (list json) :=
+  match s_arr (v_sofa (snd p)) with
   | None => Ok []
-  | Some o => match hget (c_heap c) o with
+  | Some o => if omem o (fst p) then Ok [] else
+              match hget (c_heap c) o with
               | None => Err EAttribute
               | Some f => do m <- enc_fs L s c f ;; Ok [JObj m] end
   end.
-Definition view_out (L : lex) (s : schema) (c : cas) (v : cview) : res (list json * (string * json)) :=
-  do jv <- enc_view (c_heap c) v ;;
-  do arrs <- arr_out L s c v ;;
-  do ms <- enc_sofa L c (v_sofa v) ;;
+Definition view_out (L : lex) (s : schema) (c : cas) (p : list oid * cview) : res (list json * (string * json)) :=
+  do jv <- enc_view (c_heap c) (snd p) ;;
+  do arrs <- arr_out L s c p ;;
+  do ms <- enc_sofa L c (v_sofa (snd p)) ;;
   Ok (arrs ++ [JObj ms], jv).
 
 (* the byte array of a sofa is written from its own type, id and slots only *)
@@ -950,21 +990,51 @@ Proof. induction vs; [reflexivity|exact IHvs]. Qed.
 Lemma fold_step_oof L s vs : fold_left (step_view L s) vs OutOfFuel = OutOfFuel.
 Proof. induction vs; [reflexivity|exact IHvs]. Qed.
 
-Lemma step_view_spec L s c fss views v c1 fss1 views1 :
-  step_view L s (Ok (c, fss, views)) v = Ok (c1, fss1, views1) ->
-  ext c c1 /\
-  forall cF, ext c1 cF -> arrays_bytes cF [v] ->
-    exists out, view_out L s cF v = Ok out /\ fss1 = fss ++ fst out /\ views1 = views ++ [snd out].
+(* what the loop has written carries an id *)
+Definition wr_ids (c : cas) (wr : list oid) : Prop :=
+  forall o, In o wr -> exists f i, hget (c_heap c) o = Some f /\ o_id f = Some i.
+Lemma wr_ids_ext c c' wr : ext c c' -> wr_ids c wr -> wr_ids c' wr.
 Proof.
-  unfold step_view. cbn [bind].
+  intros E H o Ho. destruct (H o Ho) as (f & i & G & I). destruct (proj2 E o f G) as (f' & G' & _ & _ & I').
+  exists f', i. split; [exact G'|apply I'; exact I].
+Qed.
+Lemma enc_sofa_ext L c cF sf ms :
+  ext c cF -> (forall o, s_arr sf = Some o -> exists f i, hget (c_heap c) o = Some f /\ o_id f = Some i) ->
+  enc_sofa L c sf = Ok ms -> enc_sofa L cF sf = Ok ms.
+Proof.
+  intros HF Hid Es. unfold enc_sofa in *. destruct (s_arr sf) as [o|] eqn:Ea; [|exact Es].
+  destruct (Hid o eq_refl) as (f & i & G & I). unfold ref_json in *.
+  assert (Hr : ref_id c (VRef o) = Ok (Some i)) by (cbn [ref_id]; rewrite G, I; reflexivity).
+  rewrite Hr in Es. rewrite (ref_id_ext c cF (VRef o) i HF Hr). exact Es.
+Qed.
+
+Lemma step_view_spec L s c fss views wr v c1 fss1 views1 wr1 :
+  wr_ids c wr ->
+  step_view L s (Ok (c, fss, views, wr)) v = Ok (c1, fss1, views1, wr1) ->
+  ext c c1 /\ wr1 = wr ++ arr_of (wr, v) /\ wr_ids c1 wr1 /\
+  forall cF, ext c1 cF -> arrays_bytes cF [v] ->
+    exists out, view_out L s cF (wr, v) = Ok out /\ fss1 = fss ++ fst out /\ views1 = views ++ [snd out].
+Proof.
+  intros Hwr. unfold step_view. cbn [bind].
   destruct (enc_view (c_heap c) v) as [jv| |] eqn:Ev; cbn [bind]; try discriminate.
-  destruct (s_arr (v_sofa v)) as [o|] eqn:Ea.
+  unfold arr_of. cbn [fst snd].
+  destruct (s_arr (v_sofa v)) as [o|] eqn:Ea; [destruct (omem o wr) eqn:Eo|].
+  - (* the array was written for an earlier sofa *)
+    cbn [bind]. destruct (enc_sofa L c (v_sofa v)) as [ms| |] eqn:Es; cbn [bind]; try discriminate.
+    intros [= <- <- <- <-]. split; [apply ext_refl|]. split; [rewrite app_nil_r; reflexivity|]. split; [exact Hwr|]. intros cF HF _.
+    unfold view_out, arr_out. cbn [fst snd]. unfold enc_view in *.
+    destruct (member_ids (c_heap c) (v_members v)) as [ids| |] eqn:Emi; cbn [bind] in Ev; try discriminate.
+    rewrite (member_ids_ext c cF (v_members v) ids HF Emi). cbn [bind]. rewrite Ea, Eo. cbn [bind].
+    assert (EsF : enc_sofa L cF (v_sofa v) = Ok ms).
+    { apply (enc_sofa_ext L c cF (v_sofa v) ms HF); [|exact Es]. intros o' Ho'. rewrite Ea in Ho'. inversion Ho'; subst o'.
+      apply Hwr. apply omem_In. exact Eo. }
+    rewrite EsF. cbn [bind]. inversion Ev; subst jv. eexists. split; [reflexivity|]. cbn [fst snd app]. split; reflexivity.
   - destruct (hget (c_heap c) o) as [f|] eqn:Ef; cbn [bind]; [|discriminate].
     set (c' := match o_id f with Some _ => c | None => mkCas (c_views c) (hset (c_heap c) o (set_id f (c_next_id c))) (c_next_id c + 1) end).
     set (f1 := match o_id f with Some _ => f | None => set_id f (c_next_id c) end).
     destruct (enc_fs L s c' f1) as [m| |] eqn:Em; cbn [bind]; try discriminate.
     destruct (enc_sofa L c' (v_sofa v)) as [ms| |] eqn:Es; cbn [bind]; try discriminate.
-    intros [= <- <- <-].
+    intros [= <- <- <- <-].
     assert (Hext : ext c c').
     { unfold c'. destruct (o_id f) eqn:Ei; [apply ext_refl|]. split; [reflexivity|]. cbn [c_heap]. intros o' g Hg.
       destruct (N.eq_dec o' o) as [->|Hne].
@@ -975,47 +1045,52 @@ Proof.
     { unfold c', f1. destruct (o_id f) eqn:Ei; [split; [exact Ef|eauto]|]. cbn [c_heap]. rewrite (hget_hset_same _ _ _ _ Ef).
       split; [reflexivity|]. cbn [set_id o_id]. eauto. }
     destruct Hf1 as [Hg1 (i1 & Hi1)].
-    split; [exact Hext|]. intros cF HF Hb.
+    split; [exact Hext|]. split; [reflexivity|]. split.
+    { intros o' Ho'. apply in_app_or in Ho'. destruct Ho' as [Ho'|[<-|[]]]; [exact (wr_ids_ext c c' wr Hext Hwr o' Ho')|].
+      exists f1, i1. split; assumption. }
+    intros cF HF Hb.
     destruct (proj2 HF o f1 Hg1) as (fF & GF & TF & SF & IF).
     assert (HtF : o_type fF = T_BYTE_ARRAY) by (apply (Hb v o fF); [left; reflexivity|exact Ea|exact GF]).
-    unfold view_out, arr_out. unfold enc_view in *.
+    unfold view_out, arr_out. cbn [fst snd]. unfold enc_view in *.
     destruct (member_ids (c_heap c) (v_members v)) as [ids| |] eqn:Emi; cbn [bind] in Ev; try discriminate.
-    rewrite (member_ids_ext c cF (v_members v) ids (ext_trans _ _ _ Hext HF) Emi). cbn [bind]. rewrite Ea, GF.
+    rewrite (member_ids_ext c cF (v_members v) ids (ext_trans _ _ _ Hext HF) Emi). cbn [bind]. rewrite Ea, Eo, GF.
     rewrite (enc_fs_bytes L s c' cF f1 fF); [|congruence|exact TF|exact SF|rewrite Hi1; apply IF; exact Hi1].
     rewrite Em. cbn [bind].
     assert (EsF : enc_sofa L cF (v_sofa v) = Ok ms).
-    { unfold enc_sofa in *. rewrite Ea in *. unfold ref_json in *.
-      assert (Hr : ref_id c' (VRef o) = Ok (Some i1)) by (cbn [ref_id]; rewrite Hg1, Hi1; reflexivity).
-      rewrite Hr in Es. rewrite (ref_id_ext c' cF (VRef o) i1 HF Hr). exact Es. }
+    { apply (enc_sofa_ext L c' cF (v_sofa v) ms HF); [|exact Es]. intros o' Ho'. rewrite Ea in Ho'. inversion Ho'; subst o'.
+      exists f1, i1. split; assumption. }
     rewrite EsF. cbn [bind]. inversion Ev; subst jv. eexists. split; [reflexivity|]. cbn [fst snd]. split; reflexivity.
   - cbn [bind]. destruct (enc_sofa L c (v_sofa v)) as [ms| |] eqn:Es; cbn [bind]; try discriminate.
-    intros [= <- <- <-]. split; [apply ext_refl|]. intros cF HF _.
-    unfold view_out, arr_out. unfold enc_view in *.
+    intros [= <- <- <- <-]. split; [apply ext_refl|]. split; [rewrite app_nil_r; reflexivity|]. split; [exact Hwr|]. intros cF HF _.
+    unfold view_out, arr_out. cbn [fst snd]. unfold enc_view in *.
     destruct (member_ids (c_heap c) (v_members v)) as [ids| |] eqn:Emi; cbn [bind] in Ev; try discriminate.
     rewrite (member_ids_ext c cF (v_members v) ids HF Emi). cbn [bind]. rewrite Ea. cbn [bind].
     assert (EsF : enc_sofa L cF (v_sofa v) = Ok ms) by (unfold enc_sofa in *; rewrite Ea in *; exact Es).
     rewrite EsF. cbn [bind]. inversion Ev; subst jv. eexists. split; [reflexivity|]. cbn [fst snd app]. split; reflexivity.
 Qed.
 
-Lemma loop_spec L s : forall vs c fss views cN fssN viewsN,
-  fold_left (step_view L s) vs (Ok (c, fss, views)) = Ok (cN, fssN, viewsN) ->
-  ext c cN /\
+Lemma loop_spec L s : forall vs c fss views wr cN fssN viewsN wrN,
+  wr_ids c wr ->
+  fold_left (step_view L s) vs (Ok (c, fss, views, wr)) = Ok (cN, fssN, viewsN, wrN) ->
+  ext c cN /\ wrN = wr ++ flat_map arr_of (tag_views wr vs) /\ wr_ids cN wrN /\
   forall cF, ext cN cF -> arrays_bytes cF vs ->
-    exists outs, mapM (view_out L s cF) vs = Ok outs /\ fssN = fss ++ List.concat (map fst outs) /\ viewsN = views ++ map snd outs.
+    exists outs, mapM (view_out L s cF) (tag_views wr vs) = Ok outs /\ fssN = fss ++ List.concat (map fst outs) /\ viewsN = views ++ map snd outs.
 Proof.
-  induction vs as [|v r IH]; intros c fss views cN fssN viewsN H.
-  - cbn [fold_left] in H. inversion H; subst. split; [apply ext_refl|]. intros cF _ _. exists []. cbn [mapM map List.concat].
+  induction vs as [|v r IH]; intros c fss views wr cN fssN viewsN wrN Hwr H.
+  - cbn [fold_left] in H. inversion H; subst. split; [apply ext_refl|]. cbn [tag_views flat_map]. split; [rewrite app_nil_r; reflexivity|].
+    split; [exact Hwr|]. intros cF _ _. exists []. cbn [mapM map List.concat].
     rewrite !app_nil_r. auto.
-  - cbn [fold_left] in H. destruct (step_view L s (Ok (c, fss, views)) v) as [[[c1 fss1] views1]|e|] eqn:E1.
-    + destruct (step_view_spec L s c fss views v c1 fss1 views1 E1) as [X1 S1].
-      destruct (IH c1 fss1 views1 cN fssN viewsN H) as [X2 S2]. split; [eapply ext_trans; eassumption|].
+  - cbn [fold_left] in H. destruct (step_view L s (Ok (c, fss, views, wr)) v) as [[[[c1 fss1] views1] wr1]|e|] eqn:E1.
+    + destruct (step_view_spec L s c fss views wr v c1 fss1 views1 wr1 Hwr E1) as (X1 & W1 & I1 & S1).
+      destruct (IH c1 fss1 views1 wr1 cN fssN viewsN wrN I1 H) as (X2 & W2 & I2 & S2). split; [eapply ext_trans; eassumption|].
+      cbn [tag_views flat_map]. rewrite <- W1. split; [rewrite W2, W1, <- app_assoc; reflexivity|]. split; [exact I2|].
       intros cF HF Hb.
       destruct (S1 cF (ext_trans _ _ _ X2 HF)) as (out & Ho & Hf1 & Hv1).
       { intros v' o f [Hv|[]] Ha Hg. apply (Hb v' o f); [left; exact Hv|exact Ha|exact Hg]. }
       destruct (S2 cF HF) as (outs & Hos & Hf2 & Hv2).
       { intros v' o f Hin Ha Hg. apply (Hb v' o f); [right; exact Hin|exact Ha|exact Hg]. }
       exists (out :: outs). cbn [mapM]. rewrite Ho, Hos. cbn [bind map List.concat]. split; [reflexivity|].
-      subst. rewrite <- !app_assoc. split; reflexivity.
+      subst fssN viewsN fss1 views1. rewrite <- !app_assoc. split; reflexivity.
     + rewrite fold_step_err in H. discriminate.
     + rewrite fold_step_oof in H. discriminate.
 Qed.
@@ -1096,29 +1171,28 @@ Proof.
   intros [= <-]. split; reflexivity.
 Qed.
 
-(* the id under which the byte array of a view's sofa is written *)
-Definition arr_ids (c : cas) (v : cview) : list Z :=
-  match s_arr (v_sofa v) with
-  | Some o => match hget (c_heap c) o with Some f => match o_id f with Some i => [i] | None => [] end | None => [] end
-  | None => [] end.
+(* the id under which the byte array of a view's sofa is written, when this view is the first to use it *)
+Definition arr_ids (c : cas) (p : list oid * cview) : list Z :=
+  flat_map (fun o => match hget (c_heap c) o with Some f => match o_id f with Some i => [i] | None => [] end | None => [] end) (arr_of p).
 
-Lemma view_part L s c v out :
-  lex_ok L -> view_out L s c v = Ok out ->
+Lemma view_part L s c (p : list oid * cview) out :
+  let v := snd p in
+  lex_ok L -> view_out L s c p = Ok out ->
   (match s_text (v_sofa v) with Some t => text_okb t = true | None => True end) ->
   (forall o, s_arr (v_sofa v) = Some o -> exists f i, hget (c_heap c) o = Some f /\ obj_okb s c f = true /\ o_id f = Some i) ->
   exists (E : list entry) ids cs,
-    map fst E = arr_ids c v ++ [s_xid (v_sofa v)] /\
+    map fst E = arr_ids c p ++ [s_xid (v_sofa v)] /\
     fst out = map entry_json E /\ Forall id_first E /\ snd out = vjson v ids /\
     canon_sofa c v = Ok cs /\ cs_id cs = s_xid (v_sofa v) /\ cs_text cs = s_text (v_sofa v) /\
     (forall VJ, alookup (s_name (v_sofa v)) VJ = Some (snd (vjson v ids)) ->
        mapM (den_sofa L VJ) (filter is_sofa_entry E) = Ok [cs]) /\
     (forall stab, stab_ok c stab ->
        exists rs, mapM (den_fs L s stab) (filter not_sofa E) = Ok rs /\
-                  mapM (canon_item s c) (match s_arr (v_sofa v) with Some o => [o] | None => [] end) = Ok rs).
+                  mapM (canon_item s c) (arr_of p) = Ok rs).
 Proof.
-  intros HL Hout Htx Harr. unfold view_out in Hout.
+  intros v HL Hout Htx Harr. unfold view_out in Hout. fold v in Hout.
   destruct (enc_view (c_heap c) v) as [jv| |] eqn:Ev; cbn [bind] in Hout; try discriminate.
-  destruct (arr_out L s c v) as [arrs| |] eqn:Ea; cbn [bind] in Hout; try discriminate.
+  destruct (arr_out L s c p) as [arrs| |] eqn:Ea; cbn [bind] in Hout; try discriminate.
   destruct (enc_sofa L c (v_sofa v)) as [ms| |] eqn:Es; cbn [bind] in Hout; try discriminate.
   inversion Hout; subst out. clear Hout. cbn [fst snd].
   unfold enc_view in Ev. destruct (member_ids (c_heap c) (v_members v)) as [ids| |] eqn:Emi; cbn [bind] in Ev; try discriminate.
@@ -1136,36 +1210,52 @@ Proof.
                      (s_uri (v_sofa v)) arr (zsort ids)).
   assert (Hcanon : canon_sofa c v = Ok cs).
   { unfold canon_sofa. rewrite Harr_id. cbn [bind]. rewrite Emi. reflexivity. }
-  unfold arr_out in Ea. destruct (s_arr (v_sofa v)) as [o|] eqn:Eo.
+  assert (Hnone : arr_of p = [] -> arrs = [] ->
+    exists (E : list entry),
+    map fst E = arr_ids c p ++ [s_xid (v_sofa v)] /\
+    (arrs ++ [JObj ms]) = map entry_json E /\ Forall id_first E /\ vjson v ids = vjson v ids /\
+    canon_sofa c v = Ok cs /\ cs_id cs = s_xid (v_sofa v) /\ cs_text cs = s_text (v_sofa v) /\
+    (forall VJ, alookup (s_name (v_sofa v)) VJ = Some (snd (vjson v ids)) ->
+       mapM (den_sofa L VJ) (filter is_sofa_entry E) = Ok [cs]) /\
+    (forall stab, stab_ok c stab ->
+       exists rs, mapM (den_fs L s stab) (filter not_sofa E) = Ok rs /\
+                  mapM (canon_item s c) (arr_of p) = Ok rs)).
+  { intros Hao ->. exists [(s_xid (v_sofa v), ms)].
+    split; [unfold arr_ids; rewrite Hao; reflexivity|].
+    split; [reflexivity|]. split; [repeat constructor; assumption|]. split; [reflexivity|]. split; [exact Hcanon|].
+    split; [reflexivity|]. split; [reflexivity|]. split.
+    + intros VJ HVJ. cbn [filter]. rewrite Hss. cbn [mapM]. destruct (Hcs VJ HVJ) as (arr' & Ha' & Hd').
+      rewrite Harr_id in Ha'. inversion Ha'; subst arr'. rewrite Hd'. reflexivity.
+    + intros stab _. exists []. unfold not_sofa. cbn [filter]. rewrite Hss. rewrite Hao. split; reflexivity. }
+  unfold arr_out in Ea. fold v in Ea. destruct (s_arr (v_sofa v)) as [o|] eqn:Eo; [destruct (omem o (fst p)) eqn:Ew|].
+  - inversion Ea; subst arrs. destruct Hnone as (E & H). { unfold arr_of. fold v. rewrite Eo, Ew. reflexivity. } { reflexivity. }
+    exists E, ids, cs. exact H.
   - destruct (Harr o eq_refl) as (f & i & Hg & Hok & Hi). rewrite Hg in Ea.
     destruct (enc_fs L s c f) as [m| |] eqn:Em; cbn [bind] in Ea; try discriminate. inversion Ea; subst arrs.
     destruct (written_object L s c o f i m HL Hg Hi Hok Em) as (Hid & Hns & Hden).
+    assert (Hao : arr_of p = [o]) by (unfold arr_of; fold v; rewrite Eo, Ew; reflexivity).
     exists [(i, m); (s_xid (v_sofa v), ms)], ids, cs.
-    split; [unfold arr_ids; rewrite Eo, Hg, Hi; reflexivity|].
+    split; [unfold arr_ids; rewrite Hao; cbn [flat_map]; rewrite Hg, Hi; reflexivity|].
     split; [reflexivity|]. split; [repeat constructor; assumption|]. split; [reflexivity|]. split; [exact Hcanon|].
     split; [reflexivity|]. split; [reflexivity|]. split.
     + intros VJ HVJ. cbn [filter]. rewrite Hns, Hss. cbn [mapM]. destruct (Hcs VJ HVJ) as (arr' & Ha' & Hd').
       rewrite Harr_id in Ha'. inversion Ha'; subst arr'. rewrite Hd'. reflexivity.
     + intros stab Hst. destruct (Hden stab Hst) as (r & Hd & Hc). exists [r]. unfold not_sofa. cbn [filter]. rewrite Hns, Hss. cbn [negb mapM].
-      rewrite Hd, Hc. split; reflexivity.
-  - inversion Ea; subst arrs. exists [(s_xid (v_sofa v), ms)], ids, cs.
-    split; [unfold arr_ids; rewrite Eo; reflexivity|].
-    split; [reflexivity|]. split; [repeat constructor; assumption|]. split; [reflexivity|]. split; [exact Hcanon|].
-    split; [reflexivity|]. split; [reflexivity|]. split.
-    + intros VJ HVJ. cbn [filter]. rewrite Hss. cbn [mapM]. destruct (Hcs VJ HVJ) as (arr' & Ha' & Hd').
-      rewrite Harr_id in Ha'. inversion Ha'; subst arr'. rewrite Hd'. reflexivity.
-    + intros stab _. exists []. unfold not_sofa. cbn [filter]. rewrite Hss. split; reflexivity.
+      rewrite Hao. cbn [mapM]. rewrite Hd, Hc. split; reflexivity.
+  - inversion Ea; subst arrs. destruct Hnone as (E & H). { unfold arr_of. fold v. rewrite Eo. reflexivity. } { reflexivity. }
+    exists E, ids, cs. exact H.
 Qed.
 
 Definition view_okP (s : schema) (c : cas) (v : cview) : Prop :=
   (match s_text (v_sofa v) with Some t => text_okb t = true | None => True end) /\
   (forall o, s_arr (v_sofa v) = Some o -> exists f i, hget (c_heap c) o = Some f /\ obj_okb s c f = true /\ o_id f = Some i).
-Definition arr_of (v : cview) : list oid := match s_arr (v_sofa v) with Some o => [o] | None => [] end.
 
-(* what the views loop wrote, as entries: ids, shape, and what the entries denote *)
-Definition views_facts (L : lex) (s : schema) (c : cas) (vs : list cview) (outs : list (list json * (string * json)))
+(* what the views loop wrote, as entries: ids, shape, and what the entries denote (tvs: the views, each with the arrays
+   written before it) *)
+Definition views_facts (L : lex) (s : schema) (c : cas) (tvs : list (list oid * cview)) (outs : list (list json * (string * json)))
                        (E : list entry) (sofas : list csofa) : Prop :=
-    map fst E = flat_map (fun v => arr_ids c v ++ [s_xid (v_sofa v)]) vs /\
+    let vs := map snd tvs in
+    map fst E = flat_map (fun p => arr_ids c p ++ [s_xid (v_sofa (snd p))]) tvs /\
     List.concat (map fst outs) = map entry_json E /\ Forall id_first E /\
     mapM (canon_sofa c) vs = Ok sofas /\
     map (fun cs => (cs_id cs, cs_text cs)) sofas = map (fun v => (s_xid (v_sofa v), s_text (v_sofa v))) vs /\
@@ -1173,14 +1263,14 @@ Definition views_facts (L : lex) (s : schema) (c : cas) (vs : list cview) (outs 
     (forall VJ, Forall2 (fun v out => alookup (s_name (v_sofa v)) VJ = Some (snd (snd out))) vs outs ->
        mapM (den_sofa L VJ) (filter is_sofa_entry E) = Ok sofas) /\
     (forall stab, stab_ok c stab ->
-       exists rs, mapM (den_fs L s stab) (filter not_sofa E) = Ok rs /\ mapM (canon_item s c) (flat_map arr_of vs) = Ok rs).
+       exists rs, mapM (den_fs L s stab) (filter not_sofa E) = Ok rs /\ mapM (canon_item s c) (flat_map arr_of tvs) = Ok rs).
 
-Lemma views_part L s c : lex_ok L -> forall vs outs, mapM (view_out L s c) vs = Ok outs ->
-  (forall v, In v vs -> view_okP s c v) ->
-  exists (E : list entry) sofas, views_facts L s c vs outs E sofas.
+Lemma views_part L s c : lex_ok L -> forall tvs outs, mapM (view_out L s c) tvs = Ok outs ->
+  (forall p, In p tvs -> view_okP s c (snd p)) ->
+  exists (E : list entry) sofas, views_facts L s c tvs outs E sofas.
 Proof.
   unfold views_facts.
-  intros HL. induction vs as [|v r IH]; intros outs Hm Hok.
+  intros HL. induction tvs as [|v r IH]; intros outs Hm Hok.
   - cbn [mapM] in Hm. inversion Hm; subst outs. exists [], []. cbn. repeat split; auto. intros stab _. exists []. split; reflexivity.
   - cbn [mapM] in Hm. destruct (view_out L s c v) as [out| |] eqn:Eo; cbn [bind] in Hm; try discriminate.
     destruct (mapM (view_out L s c) r) as [outs'| |] eqn:Er; cbn [bind] in Hm; try discriminate. inversion Hm; subst outs. clear Hm.
@@ -1196,7 +1286,6 @@ Proof.
       rewrite A3 in Hv. rewrite (A7 VJ Hv), (B6 VJ Hr). reflexivity.
     + intros stab Hst. destruct (A8 stab Hst) as (rs1 & C1 & C2). destruct (B7 stab Hst) as (rs2 & D1 & D2).
       exists (rs1 ++ rs2). rewrite filter_app, !mapM_app.
-      change (match s_arr (v_sofa v) with Some o => [o] | None => [] end) with (arr_of v) in C2.
       rewrite C1, C2, D1, D2. split; reflexivity.
 Qed.
 
@@ -1274,46 +1363,48 @@ Lemma opt_eqb_some a i : opt_eqb Z.eqb a (Some i) = true -> a = Some i.
 Proof. destruct a as [x|]; cbn [opt_eqb]; [|discriminate]. intros H. apply Z.eqb_eq in H. congruence. Qed.
 
 (* the views loop only advances the id generator *)
-Lemma step_view_next L s c fss views v c1 fss1 views1 :
-  step_view L s (Ok (c, fss, views)) v = Ok (c1, fss1, views1) -> c_next_id c <= c_next_id c1.
+Lemma step_view_next L s c fss views wr v c1 fss1 views1 wr1 :
+  step_view L s (Ok (c, fss, views, wr)) v = Ok (c1, fss1, views1, wr1) -> c_next_id c <= c_next_id c1.
 Proof.
   unfold step_view. cbn [bind].
   destruct (enc_view (c_heap c) v) as [jv| |]; cbn [bind]; try discriminate.
-  destruct (s_arr (v_sofa v)) as [o|].
+  destruct (s_arr (v_sofa v)) as [o|]; [destruct (omem o wr)|].
+  - cbn [bind]. destruct (enc_sofa L c (v_sofa v)); cbn [bind]; try discriminate. intros [= <- _ _ _]. lia.
   - destruct (hget (c_heap c) o) as [f|]; cbn [bind]; [|discriminate].
     destruct (o_id f).
     + destruct (enc_fs L s c f); cbn [bind]; try discriminate. destruct (enc_sofa L c (v_sofa v)); cbn [bind]; try discriminate.
-      intros [= <- _ _]. lia.
+      intros [= <- _ _ _]. lia.
     + destruct (enc_fs L s _ _); cbn [bind]; try discriminate. destruct (enc_sofa L _ (v_sofa v)); cbn [bind]; try discriminate.
-      intros [= <- _ _]. cbn [c_next_id]. lia.
-  - cbn [bind]. destruct (enc_sofa L c (v_sofa v)); cbn [bind]; try discriminate. intros [= <- _ _]. lia.
+      intros [= <- _ _ _]. cbn [c_next_id]. lia.
+  - cbn [bind]. destruct (enc_sofa L c (v_sofa v)); cbn [bind]; try discriminate. intros [= <- _ _ _]. lia.
 Qed.
-Lemma loop_next L s : forall vs c fss views cN fssN viewsN,
-  fold_left (step_view L s) vs (Ok (c, fss, views)) = Ok (cN, fssN, viewsN) -> c_next_id c <= c_next_id cN.
+Lemma loop_next L s : forall vs c fss views wr cN fssN viewsN wrN,
+  fold_left (step_view L s) vs (Ok (c, fss, views, wr)) = Ok (cN, fssN, viewsN, wrN) -> c_next_id c <= c_next_id cN.
 Proof.
-  induction vs as [|v r IH]; intros c fss views cN fssN viewsN H.
+  induction vs as [|v r IH]; intros c fss views wr cN fssN viewsN wrN H.
   - cbn [fold_left] in H. inversion H. lia.
-  - cbn [fold_left] in H. destruct (step_view L s (Ok (c, fss, views)) v) as [[[c1 fss1] views1]|e|] eqn:E1.
-    + pose proof (step_view_next _ _ _ _ _ _ _ _ _ E1). pose proof (IH _ _ _ _ _ _ H). lia.
+  - cbn [fold_left] in H. destruct (step_view L s (Ok (c, fss, views, wr)) v) as [[[[c1 fss1] views1] wr1]|e|] eqn:E1.
+    + pose proof (step_view_next _ _ _ _ _ _ _ _ _ _ _ E1). pose proof (IH _ _ _ _ _ _ _ _ H). lia.
     + rewrite fold_step_err in H. discriminate.
     + rewrite fold_step_oof in H. discriminate.
 Qed.
 (* what save_found returns, and the discharge of the former premise `stableb`: the traversal repeated on the CAS it
    leaves behind returns the same state *)
-Lemma save_found_stable L s c c1 sofa_fs views w : 0 < c_next_id c -> save_found L s c = Ok (c1, sofa_fs, views, w) ->
-  fold_left (step_view L s) (c_views c) (Ok (c, [], [])) = Ok (c1, sofa_fs, views) /\
+Lemma save_found_stable L s c c1 sofa_fs views wr w : 0 < c_next_id c -> save_found_wr L s c = Ok (c1, sofa_fs, views, wr, w) ->
+  fold_left (step_view L s) (c_views c) (Ok (c, [], [], [])) = Ok (c1, sofa_fs, views, wr) /\
   find_all_fs true s c1 = Ok w /\ find_all_fs true s (cas_after c1 w) = Ok w.
 Proof.
-  intros Hpos Esf. unfold save_found in Esf.
-  destruct (fold_left (step_view L s) (c_views c) (Ok (c, [], []))) as [[[c1' sfs] vws]| |] eqn:Efold; cbn [bind] in Esf; try discriminate.
-  destruct (find_all_fs true s c1') as [w0| |] eqn:Ew; cbn [bind] in Esf; try discriminate. inversion Esf; subst c1' sfs vws w0.
+  intros Hpos Esf. unfold save_found_wr in Esf.
+  destruct (fold_left (step_view L s) (c_views c) (Ok (c, [], [], []))) as [[[[c1' sfs] vws] wr']| |] eqn:Efold; cbn [bind] in Esf; try discriminate.
+  destruct (find_all_fs true s c1') as [w0| |] eqn:Ew; cbn [bind] in Esf; try discriminate. inversion Esf; subst c1' sfs vws wr' w0.
   split; [reflexivity|]. split; [exact Ew|]. apply find_all_fs_stable; [|exact Ew].
-  pose proof (loop_next _ _ _ _ _ _ _ _ _ Efold). lia.
+  pose proof (loop_next _ _ _ _ _ _ _ _ _ _ _ Efold). lia.
 Qed.
 Theorem stableb_holds L s c : 0 < c_next_id c -> (exists r, save_found L s c = Ok r) -> stableb L s c = true.
 Proof.
-  intros Hpos ([[[c1 sfs] vws] w] & Esf). unfold stableb. rewrite Esf.
-  destruct (save_found_stable L s c c1 sfs vws w Hpos Esf) as (_ & _ & ->).
+  intros Hpos (r & Esf0). unfold stableb. rewrite Esf0. unfold save_found in Esf0.
+  destruct (save_found_wr L s c) as [[[[[c1 sfs] vws] wr] w]| |] eqn:Esf; cbn [bind] in Esf0; try discriminate. inversion Esf0; subst r.
+  destruct (save_found_stable L s c c1 sfs vws wr w Hpos Esf) as (_ & _ & ->).
   generalize (sort_ids (w_all w)). induction l as [|[i o] r IH]; [reflexivity|]. cbn [list_eqb]. unfold pair_eqb at 1. cbn [fst snd].
   rewrite Z.eqb_refl, N.eqb_refl. exact IH.
 Qed.
@@ -1325,22 +1416,27 @@ Qed.
 Definition arrs_okP (s : schema) (c2 : cas) (vs : list cview) : Prop :=
   forall v o, In v vs -> s_arr (v_sofa v) = Some o ->
     exists f i, hget (c_heap c2) o = Some f /\ (String.eqb (o_type f) T_BYTE_ARRAY = true /\ obj_okb s c2 f = true) /\ o_id f = Some i.
+(* the views with the arrays written before them; what the traversal found and the views loop had not written *)
+Definition tviews (c : cas) : list (list oid * cview) := tag_views [] (c_views c).
+Definition found_list (c : cas) (w : wstate) : list (xid * oid) := unwritten (sofa_arrays c) (sort_ids (w_all w)).
+Lemma tviews_arrays c : flat_map arr_of (tviews c) = sofa_arrays_once c.
+Proof. unfold tviews, sofa_arrays_once, sofa_arrays. apply tag_arrays. Qed.
 Lemma save_json_parts L s mode c d c2 :
   lex_ok L -> save_json L s mode c = Ok (d, c2) -> wf_jsonb s c2 = true -> 0 < c_next_id c ->
   exists w types outs fss (Ev Ef : list entry) sofas,
     find_all_fs true s c2 = Ok w /\ w_heap w = c_heap c2 /\ c_views c2 = c_views c /\
     (types = [] \/ exists j, types = [(K_TYPES, j)]) /\
     d = JObj (types ++ [(K_FS, JArr (List.concat (map fst outs) ++ fss)); (K_VIEWS, JObj (map snd outs))]) /\
-    mapM (view_out L s c2) (c_views c) = Ok outs /\
-    mapM (fun io => do f <- fs_at c2 io ;; do m <- enc_fs L s c2 f ;; Ok (JObj m)) (sort_ids (w_all w)) = Ok fss /\
-    views_facts L s c2 (c_views c) outs Ev sofas /\ found_facts L s c2 (sort_ids (w_all w)) fss Ef /\
+    mapM (view_out L s c2) (tviews c) = Ok outs /\
+    mapM (fun io => do f <- fs_at c2 io ;; do m <- enc_fs L s c2 f ;; Ok (JObj m)) (found_list c2 w) = Ok fss /\
+    views_facts L s c2 (tviews c) outs Ev sofas /\ found_facts L s c2 (found_list c2 w) fss Ef /\
     (forall io, In io (w_all w) -> found_okP s c2 io) /\ arrs_okP s c2 (c_views c) /\
     snodup (map s_name (map v_sofa (c_views c2))) = true /\ znodup (map s_xid (map v_sofa (c_views c2))) = true.
 Proof.
   intros HL Hsave Hwf Hpos.
   unfold save_json in Hsave.
-  destruct (save_found L s c) as [[[[c1 sofa_fs] views] w]| |] eqn:Esf; cbn [bind] in Hsave; try discriminate.
-  destruct (mapM (fun io => do f <- fs_at (cas_after c1 w) io ;; do m <- enc_fs L s (cas_after c1 w) f ;; Ok (JObj m)) (sort_ids (w_all w)))
+  destruct (save_found_wr L s c) as [[[[[c1 sofa_fs] views] wr] w]| |] eqn:Esf; cbn [bind] in Hsave; try discriminate.
+  destruct (mapM (fun io => do f <- fs_at (cas_after c1 w) io ;; do m <- enc_fs L s (cas_after c1 w) f ;; Ok (JObj m)) (unwritten wr (sort_ids (w_all w))))
     as [fss| |] eqn:Efss; cbn [bind] in Hsave; try discriminate.
   destruct (mapM (fun io => do f <- fs_at (cas_after c1 w) io ;; Ok (o_type f)) (sort_ids (w_all w))) as [used| |] eqn:Eused;
     cbn [bind] in Hsave; try discriminate.
@@ -1348,12 +1444,12 @@ Proof.
   inversion Hsave; subst d c2. clear Hsave.
   (* the loop and the traversal; a second traversal of the CAS the save leaves behind finds the same structures under
      the same ids (ReachSpec.find_all_fs_stable) *)
-  destruct (save_found_stable L s c c1 sofa_fs views w Hpos Esf) as (Efold & Ew & Ew').
+  destruct (save_found_stable L s c c1 sofa_fs views wr w Hpos Esf) as (Efold & Ew & Ew').
   pose (w' := w).
   (* the premises *)
   unfold wf_jsonb in Hwf. rewrite Ew' in Hwf. rewrite !andb_true_iff in Hwf. destruct Hwf as ((((Hn & Hi) & Ht) & Hf) & Ha).
   rewrite forallb_forall in Ht, Hf, Ha.
-  destruct (loop_spec L s _ _ _ _ _ _ _ Efold) as [X1 Hloop].
+  destruct (loop_spec L s _ _ _ _ _ _ _ _ _ (fun o (H : In o []) => match H with end) Efold) as (X1 & Hwr & _ & Hloop).
   pose proof (find_all_ext s c1 w Ew) as X2.
   set (c2 := cas_after c1 w) in *.
   assert (Hviews : c_views c2 = c_views c) by (rewrite (proj1 X2); exact (proj1 X1)).
@@ -1366,17 +1462,22 @@ Proof.
   destruct (Hloop c2 X2) as (outs & Houts & Hsfs & Hvws).
   { intros v o f Hv Ho Hg. destruct (Harrs v o Hv Ho) as (f' & i & G & [T _] & _). rewrite Hg in G. inversion G; subst f'.
     apply String.eqb_eq in T. exact T. }
-  cbn [app] in Hsfs, Hvws. subst sofa_fs views.
-  destruct (views_part L s c2 HL (c_views c) outs Houts) as (Ev & sofas & HV).
-  { intros v Hv. split.
-    - assert (Hs : In (v_sofa v) (map v_sofa (c_views c2))) by (rewrite Hviews; apply in_map; exact Hv). pose proof (Ht _ Hs) as Hq. destruct (s_text (v_sofa v)); [exact Hq|exact I].
-    - intros o Ho. destruct (Harrs v o Hv Ho) as (f & i & G & [_ K] & I). exists f, i. auto. }
+  cbn [app] in Hsfs, Hvws, Hwr. subst sofa_fs views.
+  (* what the loop wrote is the set of the sofa byte arrays *)
+  assert (Hsame : unwritten wr (sort_ids (w_all w)) = found_list c2 w).
+  { unfold found_list. apply unwritten_same. intros o. rewrite Hwr. fold (tviews c). rewrite tviews_arrays.
+    rewrite sofa_arrays_once_mem. unfold sofa_arrays. rewrite Hviews. reflexivity. }
+  rewrite Hsame in Efss.
+  destruct (views_part L s c2 HL (tviews c) outs Houts) as (Ev & sofas & HV).
+  { intros p Hp. assert (Hv : In (snd p) (c_views c)) by (rewrite <- (tag_views_snd (c_views c) []); apply in_map; exact Hp). split.
+    - assert (Hs : In (v_sofa (snd p)) (map v_sofa (c_views c2))) by (rewrite Hviews; apply in_map; exact Hv). pose proof (Ht _ Hs) as Hq. destruct (s_text (v_sofa (snd p))); [exact Hq|exact I].
+    - intros o Ho. destruct (Harrs (snd p) o Hv Ho) as (f & i & G & [_ K] & I). exists f, i. auto. }
   assert (Hfound : forall io, In io (w_all w) -> found_okP s c2 io).
   { intros io Hio. specialize (Hf io Hio).
     destruct (hget (c_heap c2) (@snd Z oid io)) as [f|] eqn:G; [|discriminate Hf]. apply andb_true_iff in Hf. destruct Hf as [A B].
     exists f. split; [exact G|]. split; [exact A|apply opt_eqb_some; exact B]. }
-  destruct (found_part L s c2 HL (sort_ids (w_all w)) fss Efss) as (Ef & HF).
-  { intros io Hio. apply Hfound. apply (proj1 (sort_ids_In _ _)). exact Hio. }
+  destruct (found_part L s c2 HL (found_list c2 w) fss Efss) as (Ef & HF).
+  { intros io Hio. apply Hfound. apply (proj1 (sort_ids_In _ _)). unfold found_list, unwritten in Hio. apply filter_In in Hio. exact (proj1 Hio). }
   exists w, types, outs, fss, Ev, Ef, sofas.
   split; [exact Ew'|]. split; [reflexivity|]. split; [exact Hviews|]. split; [exact (ser_types_shape _ _ _ _ Ety)|].
   split; [reflexivity|]. split; [exact Houts|]. split; [exact Efss|]. split; [exact HV|]. split; [exact HF|].
@@ -1391,6 +1492,7 @@ Proof.
   destruct (save_json_parts L s mode c d c2 HL Hsave Hwf Hpos)
     as (w & types & outs & fss & Ev & Ef & sofas & Ew' & Hheap & Hviews & Hty & -> & Houts & Efss & HV & HF & Hfound & Harrs & Hn & Hi).
   destruct HV as (V0 & V1 & V2 & V3 & V4 & V5 & V6 & V7). destruct HF as (F0 & F1 & F2 & F3 & F4 & F5).
+  unfold tviews in V3, V4, V5, V6. rewrite tag_views_snd in V3, V4, V5, V6.
   (* the document *)
   assert (Hfs : jget K_FS (JObj (types ++ [(K_FS, JArr (List.concat (map fst outs) ++ fss)); (K_VIEWS, JObj (map snd outs))]))
                 = Some (JArr (map entry_json (Ev ++ Ef)))).
@@ -1423,12 +1525,13 @@ Proof.
   change (fun e : entry => negb (is_sofa_entry e)) with not_sofa.
   rewrite filter_app, F4, mapM_app, R1, R3. cbn [bind].
   (* the canonical side *)
-  unfold canon_json. rewrite Ew'. cbn [bind]. unfold canon_of.
+  unfold canon_json. rewrite Ew'. cbn [bind]. unfold canon_of, listed.
   change (fun o : oid => match hget (c_heap c2) o with
                          | Some f => match o_id f with Some i => do cf <- canon_fs s c2 f ;; Ok (i, cf) | None => Err EValue end
                          | None => Err EAttribute end) with (canon_item s c2).
-  assert (Hsa : sofa_arrays c2 = flat_map arr_of (c_views c)) by (unfold sofa_arrays; rewrite Hviews; reflexivity).
-  rewrite Hsa, mapM_app, R2, R4. cbn [bind]. rewrite Hviews, V3. reflexivity.
+  assert (Hsa : sofa_arrays_once c2 = flat_map arr_of (tviews c)).
+  { rewrite tviews_arrays. unfold sofa_arrays_once, sofa_arrays. rewrite Hviews. reflexivity. }
+  fold (found_list c2 w). rewrite Hsa, mapM_app, R2, R4. cbn [bind]. rewrite Hviews, V3. reflexivity.
 Qed.
 
 (* ================================================================================================================ *)
